@@ -93,7 +93,9 @@ func (g *Gen) fn2() Fn2 {
 	}
 	return Fn2{a, b, g.R.Range(0, 2)}
 }
-func (g *Gen) cut() string { return []string{"CEq", "CEq", "CParity", "CAlways", "CNever"}[g.R.Intn(5)] }
+func (g *Gen) cut() string {
+	return []string{"CEq", "CEq", "CParity", "CAlways", "CNever"}[g.R.Intn(5)]
+}
 
 func (g *Gen) texp(depth int, root bool) *Texp {
 	outer := g.userNodes()
@@ -646,9 +648,9 @@ func RunTwin(serial *Exec, parallelism int, compare bool) (par *Exec, mon *Monit
 // MemoKeyHistories enumerates key sequences through one BindMemoized (property C09).
 func MemoKeyHistories(maxLen int, r *hx.Rand) [][]Op {
 	prefix := []Op{
-		{K: "NewVar", V: 0},                       // n0: the key
-		{K: "NewVar", V: 3},                       // n1: an outer input
-		{K: "NewMap", F1: Fn1{2, 1}, A: 1},        // n2: derived from the outer input
+		{K: "NewVar", V: 0},                // n0: the key
+		{K: "NewVar", V: 3},                // n1: an outer input
+		{K: "NewMap", F1: Fn1{2, 1}, A: 1}, // n2: derived from the outer input
 	}
 	cases := []*Texp{
 		{K: "TRet", Z: 7},
